@@ -54,6 +54,9 @@ type PScript struct {
 	// schedule: the front's connection to the backend delays the first SendMsg of the call until the backend's handler
 	// has returned and its trailers have had time to arrive (Proxy.tla FSendFirst with bpc = "done")
 	SlowOpen bool `json:"slowopen"`
+	// the text of the failing status: "" = the usual one (percent signs, non-ASCII), "empty" = no message at all,
+	// "ascii" = plain words
+	Msg string `json:"msg"`
 }
 
 type PView struct {
@@ -130,7 +133,14 @@ func pRequest(s PScript, i int) *dynamicpb.Message {
 }
 
 func scriptStatus(s PScript) error {
-	st := status.New(codes.Code(s.Code), "backend says no: 50% ünï shelves%2Fscience 100%25 %zz")
+	text := "backend says no: 50% ünï shelves%2Fscience 100%25 %zz"
+	switch s.Msg {
+	case "empty":
+		text = ""
+	case "ascii":
+		text = "backend says no"
+	}
+	st := status.New(codes.Code(s.Code), text)
 	if s.Det > 0 {
 		p := st.Proto()
 		for _, d := range detailsFor(s.Det) {
